@@ -18,6 +18,7 @@
 package p02
 
 import (
+	"bytes"
 	"fmt"
 	"os"
 	"path/filepath"
@@ -128,7 +129,7 @@ func parseTreeOps(treeTok, opsTok string) (tree []blk, ops []op, ok bool) {
 					return nil, nil, false
 				}
 			default:
-				if !seen[id] {
+				if id != 0 && !seen[id] { // id 0: the genesis block / header itself is (re-)delivered
 					return nil, nil, false
 				}
 			}
@@ -914,6 +915,15 @@ func execOne(tree []blk, ops []op, yield bool) string {
 		}
 	}
 	var out []string
+	nDeliv := 0
+	reused := map[int]*btcutil.Block{}
+	// the caller's blocks must read the same after the history as before it
+	before := map[int]chainhash.Hash{}
+	for id, x := range in.f.byID {
+		if x.block != nil {
+			before[id] = x.block.MsgBlock().BlockHash()
+		}
+	}
 	for _, o := range ops {
 		var res string
 		var hash *chainhash.Hash
@@ -934,8 +944,22 @@ func execOne(tree []blk, ops []op, yield bool) string {
 			} else if o.kind == 'f' {
 				flags = blockchain.BFFastAdd
 			}
-			// a fresh wrapper per delivery, as a peer would hand it over
-			blkk := btcutil.NewBlock(x.block.MsgBlock())
+			// inputs are values: every other delivery of a block re-uses ONE wrapper
+			// object (and thereby whatever ProcessBlock cached in it), the others get a
+			// fresh wrapper as a peer would hand it over
+			var blkk *btcutil.Block
+			nDeliv++
+			switch {
+			case x == nil:
+				blkk = btcutil.NewBlock(in.f.params.GenesisBlock)
+			case nDeliv%2 == 0:
+				if reused[o.id] == nil {
+					reused[o.id] = btcutil.NewBlock(x.block.MsgBlock())
+				}
+				blkk = reused[o.id]
+			default:
+				blkk = btcutil.NewBlock(x.block.MsgBlock())
+			}
 			isMain, isOrphan, err := in.chain.ProcessBlock(blkk, flags)
 			switch {
 			case err != nil:
@@ -948,8 +972,18 @@ func execOne(tree []blk, ops []op, yield bool) string {
 				res = "s"
 			}
 		case 'h', 'k':
-			hdr := x.block.MsgBlock().Header // a copy, as a peer would hand it over
-			isMain, err := in.chain.ProcessBlockHeader(&hdr, blockchain.BFNone, o.kind == 'k')
+			var hdr *wire.BlockHeader
+			if x == nil {
+				g := in.f.params.GenesisBlock.Header
+				hdr = &g
+			} else if nDeliv%2 == 0 {
+				hdr = &x.block.MsgBlock().Header // the caller's own header object, reused
+			} else {
+				c := x.block.MsgBlock().Header // a copy, as a peer would hand it over
+				hdr = &c
+			}
+			nDeliv++
+			isMain, err := in.chain.ProcessBlockHeader(hdr, blockchain.BFNone, o.kind == 'k')
 			switch {
 			case err != nil:
 				res = errClass(err)
@@ -983,6 +1017,16 @@ func execOne(tree []blk, ops []op, yield bool) string {
 	}
 	if len(out) == 0 {
 		return "-"
+	}
+	for id, x := range in.f.byID {
+		if x.block != nil {
+			var buf bytes.Buffer
+			x.block.MsgBlock().Serialize(&buf)
+			if x.block.MsgBlock().BlockHash() != before[id] || *btcutil.NewBlock(x.block.MsgBlock()).Hash() != before[id] {
+				out[len(out)-1] += "!inmut"
+				break
+			}
+		}
 	}
 	// results are values: every snapshot handed out earlier still reads as it did then
 	for i, sp := range in.snaps {
